@@ -291,6 +291,7 @@ impl TCheck for C01 {
                 scratch: dir.clone(),
                 dedup,
                 hard_err_call: None,
+                abandon: false,
             });
             let w2 = Arc::clone(&w);
             return Prepared {
@@ -464,6 +465,7 @@ impl TCheck for C01 {
                 scratch: dir.clone(),
                 dedup,
                 hard_err_call: None,
+                abandon: false,
             });
             Prepared {
                 desc,
